@@ -60,6 +60,7 @@ type WebEnt struct {
 	Status      int    `json:"status,omitempty"` // default 200
 	ContentType string `json:"content_type,omitempty"`
 	Body        []byte `json:"body,omitempty"`
+	Location    string `json:"location,omitempty"` // with a 3xx Status: where the server sends the client
 }
 
 // Fault is injected when the global I/O step counter equals Step.
